@@ -15,7 +15,7 @@ ASSUMPTIONS = ['two pools, multi-operator containers (the configuration the sche
 
 def monitor(run):
     last_fail = {}       # operator -> the failed result it was last part of
-    for rd in SP.rounds(run):
+    for rd in SP.rounds(run) + SP.failed_rounds(run):
         t = rd.t
         for x in rd.results_in:
             if x['err']:
